@@ -123,9 +123,59 @@ fn multi_of(n: &str) -> Type<PortableForm> {
         _ => Type::new(path.clone(), vec![], TypeDefTuple::<PortableForm>::new_portable(vec![1.into(), 2.into(), ((k / 10) as u32 + 3).into()]), docs.clone()),
     }
 }
+/// ANONYMOUS definitions (no path, no parameters, no docs) that differ in ONE component of the definition, for every
+/// definition kind: nothing but the definition itself tells two of them apart, so an equality / ordering that is
+/// wrong for one kind of definition conflates them. Universes 5..10 are windows of five (the first four hold the
+/// near pairs), universe 11 is all thirty values.
+fn anon_of(n: &str, u: usize) -> Type<PortableForm> {
+    use scale_info::{Field, TypeDefArray, TypeDefBitSequence, TypeDefCompact, TypeDefComposite, TypeDefVariant, Variant};
+    // (beyond the thirty anonymous values of universe 11 a name is told apart by a doc line, as in the other universes)
+    // (so are the five slots of universe 11 that repeat a value of an earlier window)
+    let kk = idx(n) as usize;
+    let repeated = matches!(((kk / 5) % 6, kk % 5), (1, 3) | (3, 3) | (3, 4) | (4, 4) | (5, 4));
+    let docs = if u == 11 && (kk >= 30 || repeated) { vec![n.to_string()] } else { vec![] };
+    let anon = |d: scale_info::TypeDef<PortableForm>| Type::new(Default::default(), vec![], d, docs.clone());
+    let tup = |v: &[u32]| anon(TypeDefTuple::<PortableForm>::new_portable(v.iter().map(|x| (*x).into())).into());
+    let comp = |v: &[u32]| anon(TypeDefComposite::new(v.iter().map(|x| Field::<PortableForm>::new(None, (*x).into(), None, vec![]))).into());
+    let var = |v: &[u8]| anon(TypeDefVariant::<PortableForm>::new(v.iter().map(|i| Variant::new("V".to_string(), vec![], *i, vec![]))).into());
+    let k = idx(n) as usize;
+    let (w, e) = if u == 11 { ((k / 5) % 6, k % 5) } else { (u - 5, k % 5) };
+    match (w, e) {
+        (0, 0) => anon(TypeDefCompact::<PortableForm>::new(1.into()).into()),
+        (0, 1) => anon(TypeDefCompact::<PortableForm>::new(2.into()).into()),
+        (0, 2) => anon(TypeDefSequence::<PortableForm>::new(1.into()).into()),
+        (0, 3) => anon(TypeDefSequence::<PortableForm>::new(2.into()).into()),
+        (0, _) | (1, 3) => anon(TypeDefPrimitive::U8.into()),
+        (1, 0) => anon(TypeDefArray::<PortableForm>::new(1, 1.into()).into()),
+        (1, 1) => anon(TypeDefArray::<PortableForm>::new(2, 1.into()).into()),
+        (1, 2) => anon(TypeDefArray::<PortableForm>::new(1, 2.into()).into()),
+        (1, _) => anon(TypeDefPrimitive::U16.into()),
+        (2, 0) => tup(&[1, 2]),
+        (2, 1) => tup(&[1, 3]),
+        (2, 2) => tup(&[2, 2]),
+        (2, 3) => tup(&[1]),
+        (2, _) | (4, 4) => tup(&[]),
+        (3, 0) => anon(TypeDefBitSequence::<PortableForm>::new_portable(1.into(), 2.into()).into()),
+        (3, 1) => anon(TypeDefBitSequence::<PortableForm>::new_portable(1.into(), 3.into()).into()),
+        (3, 2) => anon(TypeDefBitSequence::<PortableForm>::new_portable(2.into(), 2.into()).into()),
+        (3, 3) => anon(TypeDefCompact::<PortableForm>::new(1.into()).into()),
+        (3, _) => anon(TypeDefSequence::<PortableForm>::new(1.into()).into()),
+        (4, 0) => comp(&[1]),
+        (4, 1) => comp(&[2]),
+        (4, 2) => comp(&[]),
+        (4, _) | (5, 4) => var(&[]),
+        (5, 0) => anon(TypeDefPrimitive::I256.into()),
+        (5, 1) => anon(TypeDefPrimitive::U256.into()),
+        (5, 2) => var(&[0]),
+        (_, _) => var(&[1]),
+    }
+}
 fn body_of(n: &str) -> Type<PortableForm> {
     use scale_info::{TypeDefArray, TypeDefBitSequence, TypeDefCompact, TypeDefVariant, Variant};
     let u = UNIVERSE.load(std::sync::atomic::Ordering::SeqCst);
+    if u >= 5 {
+        return anon_of(n, u);
+    }
     if u == 1 {
         return near_of(n);
     }
@@ -294,8 +344,8 @@ fn record(seed: u64, walks: usize, len: usize, path: &str) {
     let mut out = Out::create(path);
     let names: Vec<String> = (0..96).map(|i| format!("v{i}")).collect();
     for w in 0..walks {
-        let kind = ["string", "rev", "body", "builder", "body", "builder", "body", "builder", "body", "builder"][w % 10];
-        set_universe(if w % 10 >= 8 { 4 } else if w % 10 >= 6 { 3 } else if w % 10 >= 4 { 1 } else { 0 }); // Type-valued walks alternate between one body per kind and near misses
+        let kind = ["string", "rev", "body", "builder", "body", "builder", "body", "builder", "body", "builder", "body", "builder"][w % 12];
+        set_universe(if w % 12 >= 10 { 11 } else if w % 12 >= 8 { 4 } else if w % 12 >= 6 { 3 } else if w % 12 >= 4 { 1 } else { 0 }); // Type-valued walks alternate between one body per kind and near misses
         out.put(&json!({"ev": "reset", "kind": kind}));
         let don_s = donor::<String>();
         let don_r = donor::<Rev>();
@@ -403,9 +453,9 @@ fn main() {
             for (i, t) in ts.iter().enumerate() {
                 replay_interner::<String>("string", i, t, &mut out, &mut bad, &mut n);
                 replay_interner::<Rev>("rev", i, t, &mut out, &mut bad, &mut n);
-                for u in [0usize, 1, 2, 3, 4] {
+                for u in [0usize, 1, 2, 3, 4, 5, 6, 7, 8, 9, 10] {
                     set_universe(u);
-                    replay_interner::<Body>(["body", "body/near", "body/kinds", "body/cross", "body/multi"][u], i, t, &mut out, &mut bad, &mut n);
+                    replay_interner::<Body>(["body", "body/near", "body/kinds", "body/cross", "body/multi", "body/anon0", "body/anon1", "body/anon2", "body/anon3", "body/anon4", "body/anon5"][u], i, t, &mut out, &mut bad, &mut n);
                     replay_builder(i, t, &mut out, &mut bad, &mut n);
                 }
                 set_universe(0);
